@@ -590,7 +590,57 @@ class CFG:
                         facts.add(a)
                 except RecursionError:
                     pass
+                # a boolean carried in a local: `r = False ... r = <E> ... if r:` (what is left of an inlined
+                # predicate with several returns).  Every other binding of r is a falsy constant, so r can only be
+                # true through <E>: the facts of <E> hold as well
+                for t, pol in list(atoms(n.ast, label == "T")):
+                    if pol and t.isidentifier():
+                        e = self._truthy_source(t, n)
+                        if e is not None:
+                            for a in atoms(e, True):
+                                facts.add(a)
+                            try:
+                                for a in atoms(self.expand(e, at=n, consts=consts), True):
+                                    facts.add(a)
+                            except RecursionError:
+                                pass
         return facts
+
+    def _truthy_source(self, name, at):
+        """the one non-constant expression that can make local `name` true at test node `at` (all its other
+        bindings are falsy constants), provided no suspension point lies between that binding and `at`"""
+        args = self.func.args
+        if name in {p.arg for p in args.posonlyargs + args.args + args.kwonlyargs}:
+            return None
+        others = []
+        for n in self.nodes:
+            a = n.ast
+            if a is None:
+                continue
+            if n.kind == "for" and any(isinstance(x, ast.Name) and x.id == name for x in ast.walk(a.target)):
+                return None
+            if n.kind != "stmt":
+                continue
+            if isinstance(a, ast.Assign):
+                for t in a.targets:
+                    if isinstance(t, ast.Name) and t.id == name:
+                        if not (isinstance(a.value, ast.Constant) and not a.value.value):
+                            others.append((n, a.value))
+                    elif any(isinstance(x, ast.Name) and x.id == name and isinstance(x.ctx, ast.Store) for x in ast.walk(t)):
+                        return None
+            elif isinstance(a, (ast.AugAssign, ast.AnnAssign)) and isinstance(a.target, ast.Name) and a.target.id == name:
+                if isinstance(a, ast.AugAssign) or a.value is None:
+                    return None
+                if not (isinstance(a.value, ast.Constant) and not a.value.value):
+                    others.append((n, a.value))
+        if len(others) != 1:
+            return None
+        d, v = others[0]
+        if isinstance(v, ast.Name) or any(isinstance(x, (ast.Await, ast.Yield, ast.NamedExpr)) for x in ast.walk(v)):
+            return None
+        if d is at or any(m.suspends for m in self.between(d, at)):
+            return None
+        return v
 
     # ---- light path sensitivity: None-ness of locals ----------------------------
     def _null_vars(self):
@@ -763,7 +813,9 @@ class CFG:
                     if at is not None and d is not at:
                         if not cfg.dom(d, at):
                             return node
-                        if any(m.suspends for m in cfg.between(d, at)):
+                        # a plain copy of another single-definition local stays valid across suspension points
+                        pure_copy = isinstance(v, ast.Name) and v.id in sd
+                        if not pure_copy and any(m.suspends for m in cfg.between(d, at)):
                             return node
                     return cfg.expand(v, at=at, consts=consts, depth=depth - 1)
                 if consts and node.id in consts and isinstance(consts[node.id], (ast.Tuple, ast.List, ast.Constant)):
